@@ -53,6 +53,8 @@ class Report(object):
         for k, v in part.get("extra", {}).items():
             if isinstance(v, (int, float)) and isinstance(self.extra.get(k, 0), (int, float)):
                 self.extra[k] = self.extra.get(k, 0) + v
+            elif isinstance(v, list) and isinstance(self.extra.get(k, []), list) and k.endswith("_outside_the_domain"):
+                self.extra[k] = sorted(set(self.extra.get(k, []) + v))
             else:
                 self.extra[k] = v
 
